@@ -24,6 +24,9 @@ CLASS = ("class", "Acc", [("n", "int"), ("other", "Self?")], [("start", "int"), 
           ("chain", [("by", "int")], "int", [("return", ("mcall", ("mcall", V("self"), "peer", []), "add", [V("by")]))]),
           ("step", [], "Self", [("setfield", V("self"), "n", B("+", ("field", V("self"), "n"), I(1))), ("return", ("or", ("field", V("self"), "other"), V("self")))])])
 
+# a second class: constructions of the two classes interleave (the interpreter keeps one long-lived object builder)
+CLASS2 = ("class", "Box", [("v", "int")], [("x", "int")], [("setfield", V("self"), "v", V("x"))],
+          [("val", [], "int", [("return", ("field", V("self"), "v"))]), ("put", [("x", "int")], "int", [("setfield", V("self"), "v", V("x")), ("return", ("field", V("self"), "v"))])])
 NAMES = ["a", "b", "c", "d"]
 
 
@@ -34,14 +37,21 @@ def arg(rnd):
 def history(rnd, length):
     """-> statements; a, b exist from the start (b's parent is a), c / d get bound along the way"""
     live = ["a", "b"]
+    has_box = [False]
     out = [("assign", "a", ("call", "Acc", [V("in0"), ("nil",)])), ("assign", "b", ("call", "Acc", [V("in1"), V("a")])),
            ("assign", "reg", ("list", [V("a"), V("b")]), "[Acc...]")]
     for _ in range(length):
         k = rnd.choice(["add", "add", "peek", "field", "setfield", "is", "alias", "me", "link", "via", "new", "newchild", "elem", "twice", "same", "other_is",
-                        "chain", "chain", "opfield", "opfield_step", "peer_add"])
+                        "chain", "chain", "opfield", "opfield_step", "peer_add", "box", "box"])
         x = V(rnd.choice(live))
         y = V(rnd.choice(live))
-        if k == "add":
+        if k == "box":
+            if not has_box[0]:
+                has_box[0] = True
+                out += [("assign", "bx", ("call", "Box", [arg(rnd)])), ("print", ("mcall", V("bx"), "val", []))]
+            else:
+                out += [("print", ("mcall", V("bx"), "put", [arg(rnd)])), ("assign", "bx2", ("call", "Box", [arg(rnd)])), ("print", ("is", V("bx"), V("bx2"))), ("print", ("mcall", V("bx2"), "val", []))]
+        elif k == "add":
             out.append(("print", ("mcall", x, "add", [arg(rnd)])))
         elif k == "twice":
             out.append(("print", ("mcall", x, "twice", [arg(rnd)])))
@@ -95,7 +105,7 @@ def history(rnd, length):
 
 def program(seed, length, _unused=None):
     rnd = random.Random(seed)
-    return [("assign", "in0", ("in", 0)), ("assign", "in1", ("in", 1)), ("assign", "in2", ("in", 2)), CLASS] + history(rnd, length)
+    return [("assign", "in0", ("in", 0)), ("assign", "in1", ("in", 1)), ("assign", "in2", ("in", 2)), CLASS, CLASS2] + history(rnd, length)
 
 
 def select(tier, seed):
